@@ -1131,7 +1131,8 @@ def bswap(info, a):
 
 def cmps(info, a, b):
     e= []
-    e+=l_cmp(info, a, b)
+    # a is es:[edi], b is ds:[esi]; the flags are those of [esi] - [edi]
+    e+=l_cmp(info, b, a)
     off = a.get_size()/8
     e.append(ExprAff(a.arg, ExprCond(df,
                                      ExprOp('-', a.arg, ExprInt_from(a.arg, off)),
